@@ -35,6 +35,9 @@ def harnesses(tier):
             scenario_harness("nested-exits", Profile(
                 templates=("N12",), raises="free", crit_job="free", crit_sched="free", timeout="free",
                 timeout_scope="top", perm="id", edges="none"), o),
+            scenario_harness("nested1-parent-ends-during-nested-shutdown", Profile(
+                templates=("N11",), timeout="always", timeout_scope="top", lat="free", sd="free", sdt="free",
+                perm="id", crit_job=False, edges="none"), o + [O.c11_clean_exit]),
             shutdown_only("explicit-never-run", Profile(sd="free", sdt="free", perm="id"), ("F2", "N11", "N12")),
         ]
     return [
